@@ -68,6 +68,9 @@ def tree_hash():
     return _tree_hash
 
 
+_pruned = False
+
+
 def build_dir():
     d = os.path.join(VERIF, '.build', tree_hash())
     os.makedirs(d, exist_ok=True)
@@ -77,6 +80,11 @@ def build_dir():
         os.utime(d, None)
     except OSError:
         pass
+    global _pruned
+    if _pruned:
+        return d
+    _pruned = True
+
     def mtime(p):
         try:
             return os.path.getmtime(p)
